@@ -56,6 +56,15 @@ func c11Inputs() []c11Input {
 		{"syntax_error_early", at(big, nl(big, 0), "print )\n"), -1},
 		{"syntax_error_late", at(big, nl(big, 9000), "print )\nvar = 1\n"), -1},
 	}
+	// dozens of diagnostics with plenty of input after them
+	{
+		var b bytes.Buffer
+		for k := 0; k < 60; k++ {
+			fmt.Fprintf(&b, "print %d +\nvar = %d\nprint %d\n", k, k, k)
+		}
+		b.Write(c11Valid(3000))
+		l = append(l, c11Input{"many_syntax_errors", b.Bytes(), -1})
+	}
 	e := nl(big, 20)
 	l = append(l, c11Input{"lexical_failure_early", at(big, e, "print @\n"), e + 6})
 	e = nl(big, 9000)
